@@ -22,6 +22,8 @@ REPOSITORY = '/'.join([REPOSITORY_BASE, 'v1.1', 'terminologies.xml'])
 
 CACHE_AGE = datetime.timedelta(days=1)
 
+_UNKNOWN = object()
+
 
 def cache_load(url, replace_file=False):
     """
@@ -73,11 +75,15 @@ class Terminologies(dict):
         :param url: location of an odML XML file.
         :return: The odML document loaded from url.
         """
-        if url in self:
-            return self[url]
+        # Other threads may add or remove entries between two accesses: never look
+        # an entry up twice.
+        term = self.get(url, _UNKNOWN)
+        if term is not _UNKNOWN:
+            return term
 
-        if url in self.loading:
-            self.loading[url].join()
+        thread = self.loading.get(url)
+        if thread is not None:
+            thread.join()
             self.loading.pop(url, None)
             return self.load(url)
 
@@ -104,8 +110,9 @@ class Terminologies(dict):
             print("Failed to load %s due to parser errors" % url)
             print(' "%s"' % exc)
             term = None
-        self[url] = term
-        return term
+        # The first result published for a URL stays the cached one: concurrent
+        # loads of the same URL all return the same object.
+        return self.setdefault(url, term)
 
     def deferred_load(self, url):
         """
@@ -115,8 +122,10 @@ class Terminologies(dict):
         """
         if url in self or url in self.loading:
             return
-        self.loading[url] = threading.Thread(target=self._load, args=(url,))
-        self.loading[url].start()
+        # Only started threads are registered: a registered thread can always be joined.
+        thread = threading.Thread(target=self._load, args=(url,))
+        thread.start()
+        self.loading.setdefault(url, thread)
 
     def refresh(self, url):
         """
